@@ -106,10 +106,12 @@ def chk_flux_triple(case, acc, seed):
 
 
 # ---- E2: sequences of Spectrum.to ----------------------------------------------------------------------------
-def start_spectrum(wu, vu, seed):
+def start_spectrum(wu, vu, seed, ival=False):
     from lentil.radiometry import Spectrum
     lam_m = np.array([4e-7, 4.5e-7, 5.5e-7, 7e-7, 9e-7])
     val = rm.generic_real((5,), seed, tag=5, lo=0.5, hi=2.0)
+    if ival:
+        val = np.array([2, 5, 3, 8, 6], dtype=np.int64) + (seed % 3)       # integer-valued samples (integer dtype)
     return Spectrum(lam_m / IN_M[wu], val, waveunit=wu, valueunit=vu)
 
 
@@ -126,7 +128,7 @@ def si(s):
 def chk_to_bfs(case, acc, seed):
     """explicit-state search: state = spectrum after a sequence of to() calls; dedup on the (rounded) implementation state"""
     wu, vu, depth = case['wu'], case['vu'], case['depth']
-    s0 = start_spectrum(wu, vu, seed)
+    s0 = start_spectrum(wu, vu, seed, case.get('ival', False))
     ref = si(s0)
     names = WNAMES + FNAMES
 
@@ -324,7 +326,7 @@ def t_triples(arg, acc):
 
 
 def t_to(arg, acc):
-    chk_to_bfs({'kind': 'to', 'wu': arg['wu'], 'vu': arg['vu'], 'depth': arg['depth']}, acc, arg['seed'])
+    chk_to_bfs({'kind': 'to', 'wu': arg['wu'], 'vu': arg['vu'], 'depth': arg['depth'], 'ival': arg.get('ival', False)}, acc, arg['seed'])
 
 
 def t_planck(arg, acc):
@@ -342,6 +344,7 @@ def run(tier, seed, acc, procs=None):
     for wu in ('m', 'um', 'nm', 'angstrom'):
         for vu in (None, 'photlam', 'flam', 'wlam'):
             tasks.append(('t_to', {'seed': seed, 'wu': wu, 'vu': vu, 'depth': depth}))
+            tasks.append(('t_to', {'seed': seed, 'wu': wu, 'vu': vu, 'depth': depth - 1, 'ival': True}))
     for T in (300, 3000, 5778, 20000):
         tasks.append(('t_planck', {'seed': seed, 'T': T}))
     acc.states += 1
